@@ -1126,6 +1126,9 @@ class Machine(object):
         self.step += 1
         cands = [i for i in self._live(('complex',))
                  if self.pool[i].get_type_name() is not ModelBase.Empty]
+        # an observer that has looked at everything before the schema is built
+        # (registering with an interface names the anonymous types)
+        self.op_touch_caches(None, None)
         for i in cands[-2:]:
             cls = self.pool[i]
             own = list(cls._type_info.keys())
@@ -1144,6 +1147,7 @@ class Machine(object):
             if got != exp:
                 self.viol('order|schema', 'schema sequence of member %d is %r,'
                           ' declaration order %r' % (i, got, exp))
+        self._coherence()
 
     def _render(self, cls):
         fn = rpc(_returns=cls)(lambda ctx: None)
